@@ -13,6 +13,7 @@ import (
 	"fmt"
 	"math"
 	"sort"
+	"strconv"
 	"strings"
 	"sync"
 	"unsafe"
@@ -1625,10 +1626,13 @@ func parseFieldNumValue(s string) (float64, int32, error) {
 		return 0, Field_Type_Unknown, fmt.Errorf("invalid number")
 	}
 	if ch == 'f' && len(s) > 1 {
-		// Unsigned integer value
+		// Float value with an explicit suffix
 		ss := s[:len(s)-1]
-		n := fastfloat.ParseBestEffort(ss)
-		if math.IsNaN(n) || math.IsInf(n, 0) {
+		if !IsValidNumber(ss) {
+			return 0, Field_Type_Unknown, fmt.Errorf("invalid field value")
+		}
+		n, err := strconv.ParseFloat(ss, 64)
+		if err != nil || math.IsNaN(n) || math.IsInf(n, 0) {
 			return 0, Field_Type_Unknown, fmt.Errorf("invalid number")
 		}
 		return n, Field_Type_Float, nil
@@ -1644,8 +1648,10 @@ func parseFieldNumValue(s string) (float64, int32, error) {
 		return 0, Field_Type_Unknown, fmt.Errorf("invalid field value")
 	}
 
-	f := fastfloat.ParseBestEffort(s)
-	if math.IsNaN(f) || math.IsInf(f, 0) {
+	// fastfloat.ParseBestEffort is not exact (6.02e23 -> 6.019999999999999e+23) and reads what it does
+	// not understand (+3) as 0
+	f, err := strconv.ParseFloat(s, 64)
+	if err != nil || math.IsNaN(f) || math.IsInf(f, 0) {
 		return 0, Field_Type_Unknown, fmt.Errorf("invalid number")
 	}
 
